@@ -564,7 +564,8 @@ def run(ctx) -> None:
              f"load_npz's glob/prefix-strip/filter does not match the writer's file names ({why}; property filter on the prefix: {sw_ok})", stmt="prefix")
     LS.inline_helpers = False
     check_pointgroup_serialisation(ctx)
-    ot = OrderTaint(load.node, LS.du)
+    from ..taint import returning_listing_order
+    ot = OrderTaint(load.node, LS.du, extra_sources=returning_listing_order(idx, [SR]))
     for s in ot.sources:
         r4.instance(f"{load.short}: {norm1(s, 60)}")
     r4.expect(bool(ot.sources), "directory listing located", load, load.node, "load_npz: no directory listing (glob / listdir) found")
